@@ -13,6 +13,12 @@ use crate::sweep::{self, Mode, Plan};
 
 /// (exhaustive threshold in bits, hostile samples per op) for (quick, thorough)
 fn budget(prop: &str, quick: bool) -> (f64, u64) {
+    let k = crate::rt::scale_shift();
+    let (e, s) = budget0(prop, quick);
+    ((e - k as f64).max(8.0), (s >> k).max(1))
+}
+
+fn budget0(prop: &str, quick: bool) -> (f64, u64) {
     match (prop, quick) {
         ("C01", true) => (24.0, 1 << 26),
         ("C01", false) => (32.0, 1 << 31),
@@ -52,7 +58,7 @@ pub fn run(ctx: &Ctx, reg: &Registry, rep: &mut Report) {
             // seed-rotated strided pass (1/16 of the space, 1/4 for sqrt): sparse defects that no
             // generator class aims at (a few dozen inputs out of 2^32) are met with high
             // probability on every run, not only in the thorough tier
-            if ctx.quick() && matches!(ctx.prop.as_str(), "C03" | "C06" | "C07" | "C08" | "C09") {
+            if ctx.quick() && crate::rt::scale_shift() == 0 && matches!(ctx.prop.as_str(), "C03" | "C06" | "C07" | "C08" | "C09") {
                 let stride = if ctx.prop == "C06" { 4 } else { 16 };
                 for (i, op) in reg.for_prop(&ctx.prop) {
                     if op.arity() == 1 && op.fast.is_some() && !op.stub && (op.space_log2() - 32.0).abs() < 1e-9 {
@@ -65,6 +71,14 @@ pub fn run(ctx: &Ctx, reg: &Registry, rep: &mut Report) {
                 }
             }
             run_plans(ctx, reg, plans, rep);
+            use std::sync::atomic::Ordering::Relaxed;
+            rep.extra.set(
+                "constructed_rounding_traps",
+                crate::json::J::obj()
+                    .with("fused_triples_at_least", crate::json::J::u(crate::gen::TRAPS_FUSED.load(Relaxed)))
+                    .with("product_partners_at_least", crate::json::J::u(crate::gen::TRAPS_PRODUCT.load(Relaxed)))
+                    .with("note", crate::json::J::s("operand tuples solved for (modular inverse) so that the exact result is a rounding boundary +- a residue in the last bits of the working significand; counted in batches of 4096 per thread")),
+            );
         }
         "C04" => quire::run_c04(ctx, rep),
         "C11" => {
@@ -83,9 +97,10 @@ pub fn run(ctx: &Ctx, reg: &Registry, rep: &mut Report) {
         "C15" => c15::run(ctx, rep),
         "C18" => poly::run(ctx, rep),
         "C12" => {
-            let (exh, samples) = if ctx.quick() { (16.0, 1 << 24) } else { (32.0, 1 << 28) };
+            let k = crate::rt::scale_shift();
+            let (exh, samples) = if ctx.quick() { (16.0 - k as f64, (1u64 << 24) >> k) } else { (32.0, 1 << 28) };
             let mut plans = sweep::plan_for(reg, "C12", exh, samples);
-            if ctx.quick() {
+            if ctx.quick() && k == 0 {
                 for (i, op) in reg.for_prop("C12") {
                     if op.arity() == 1 && op.fast.is_some() && (op.space_log2() - 32.0).abs() < 1e-9 {
                         plans.push(Plan {
